@@ -1249,3 +1249,112 @@ def rule_pointer_constructor_by_evaluation(ctx, rep: Report, rid="I9"):
     rep.units["constructor_emitter_runs"] = evaluated
     if evaluated == 0:
         rep.add(rid, "wrap_class_constructors evaluated on sample classes", True, "not evaluable; I3/I4 decide by structure", loc, nontrivial=False)
+
+
+def _emitter_samples(ctx):
+    """Sample declarations for running the .m emitters: a class `ns::K` with methods and static methods whose overloads are
+    declared apart, shorter before longer, and with a defaulted parameter; and two overloads of a free function."""
+    from .rules_matlab import SampleObj, sample_wrapper
+    root = SampleObj(__kind__="Namespace", name="", parent="")
+    nsn = SampleObj(__kind__="Namespace", name="ns", parent=root, full_namespaces=lambda: ["", "ns"])
+
+    def ty(name, ns=()):
+        return SampleObj(__kind__="Type", typename=SampleObj(__kind__="Typename", name=name, namespaces=list(ns), instantiations=[]),
+                         is_const="", is_ref="", is_ptr="", is_shared_ptr="", is_basic=True)
+
+    def mk_args(specs):
+        al = [SampleObj(__kind__="Argument", name=n, ctype=ty(t, ns), default=d, parent=None) for n, t, ns, d in specs]
+        return SampleObj(__kind__="ArgumentList", args_list=al, parent=None)
+
+    def rt(name):
+        return SampleObj(__kind__="ReturnType", type1=ty(name), type2="", is_void=lambda: name == "void")
+    cls = SampleObj(__kind__="InstantiatedClass", name="K", parent=nsn, namespaces=lambda: ["", "ns"], properties=[])
+
+    def decl(kind, name, specs, ret="double", parent=cls):
+        m = SampleObj(__kind__=kind, name=name, args=mk_args(specs), return_type=rt(ret), parent=parent, template="", is_const="")
+        m["original"] = m
+        return m
+    D = ("x", "double", (), None)
+    statics = [decl("StaticMethod", "make", [D]), decl("StaticMethod", "zero", []),
+               decl("StaticMethod", "make", [D, ("s", "double", (), None), ("t", "K", ("ns",), "ns::K()")]), decl("StaticMethod", "make", [])]
+    meths = [decl("Method", "at", [("i", "size_t", (), None)]), decl("Method", "size", [], ret="size_t"),
+             decl("Method", "at", [("i", "size_t", (), None), ("j", "size_t", (), None), ("c", "double", (), "0.0")]), decl("Method", "at", [])]
+    funcs = [decl("GlobalFunction", "scale", [D], parent=nsn), decl("GlobalFunction", "scale", [D, ("k", "K", ("ns",), None), ("w", "double", (), "1.0")], parent=nsn)]
+    cls["static_methods"] = statics
+    cls["methods"] = meths
+    me = sample_wrapper(ctx, module_name="mod", wrapper_id=3, wrapper_map={}, use_boost_serialization=False, __kind__="MatlabWrapper")
+    return me, cls, statics, meths, funcs
+
+
+def rule_call_sites_by_evaluation(ctx, rep: Report, rid="I10"):
+    """Every branch of a generated .m function passes the id under which the routine of *that* overload is registered: the entry
+    of the id map names the member the branch belongs to and takes as many arguments as the branch's guard counts.  Decided by
+    running the emitters for static methods, methods and free functions (the analyser's own interpreter; the sample
+    declarations are objects of the program's own classes, default arguments expanded by the tool's own code) and reading the
+    emitted text next to the id map the run left behind."""
+    from .rules_matlab import _PathEval, _Raised, mini_exec, program_classes
+    ci, prog = mw(ctx)
+    methods = _all_methods(prog, ci)
+    classes = program_classes(prog, ["ArgumentList", "Argument", "MatlabWrapper", "Typename", "Type", "ReturnType"])
+    runs = []
+    for which in ("wrap_static_methods", "wrap_class_methods", "wrap_global_function"):
+        fn = prog.method("MatlabWrapper", which)
+        ps = func_params(fn)
+        me, cls, statics, meths, funcs = _emitter_samples(ctx)
+        try:
+            if which == "wrap_static_methods":
+                env = dict(zip(ps, [me, "ns", cls, [False]]))
+            elif which == "wrap_class_methods":
+                env = dict(zip(ps, [me, "ns", cls, list(meths), [False]]))
+            else:
+                env = dict(zip(ps, [me, list(funcs)]))
+            if len(env) != len(ps):
+                continue
+            text = mini_exec(fn, env, budget=120000, methods=methods, classes=classes)
+        except (_PathEval.Unknown, _Raised, TypeError, KeyError, IndexError):
+            continue
+        if isinstance(text, str):
+            runs.append((which, fn, text, me))
+    rep.units["m_emitters_evaluated"] = len(runs)
+    if not runs:
+        rep.add(rid, "the .m emitters evaluated on sample declarations", True, "not evaluable; I3-I8 decide by structure", f"{ci.mod.rel}:0", nontrivial=False)
+        return
+    for which, fn, text, me in runs:
+        wm = me.get("wrapper_map") if isinstance(me.get("wrapper_map"), dict) else {}
+        probs = []
+        cur = None
+        seen_ids = []
+        count = None
+        for line in text.splitlines():
+            m_ = re.match(r"\s*function\s+(?:\w+\s*=\s*)?(\w+)\(", line)
+            if m_:
+                cur, count = m_.group(1), None
+                continue
+            c_ = re.search(r"length\(varargin\)\s*==\s*(\d+)", line)
+            if c_:
+                count = int(c_.group(1))
+            g_ = re.search(r"\b\w+_wrapper\((\d+)\s*,", line)
+            if g_:
+                id_ = int(g_.group(1))
+                seen_ids.append(id_)
+                ent = wm.get(id_)
+                if ent is None:
+                    probs.append(f"{cur}: the branch for {count} argument(s) passes id {id_}, which no routine is registered under")
+                    continue
+                objs = [x for x in ent if isinstance(x, dict) and "args" in x and "name" in x]
+                obj = objs[-1] if objs else None
+                if obj is None:
+                    probs.append(f"{cur}: id {id_} is registered without the overload it belongs to")
+                    continue
+                n_args = len(obj["args"]["args_list"])
+                if obj["name"] != cur:
+                    probs.append(f"{cur}: the branch passes id {id_}, registered for `{obj['name']}`")
+                elif count is not None and n_args != count:
+                    probs.append(f"{cur}: the branch for {count} argument(s) passes id {id_}, whose routine was built for the overload with {n_args}")
+        if sorted(seen_ids) != sorted(wm):
+            probs.append(f"ids passed by the .m text {sorted(seen_ids)} / ids registered {sorted(wm)}")
+        if len(set(seen_ids)) != len(seen_ids):
+            probs.append(f"an id is passed by two branches: {sorted(seen_ids)}")
+        rep.add(rid, f"{which}:each branch passes the id registered for its own overload", not probs and bool(seen_ids),
+                f"{probs[:3]}: the `case` that the branch reaches runs the routine of another overload (argument count, unwrapping and call belong to "
+                f"that one), or of none", f"{ci.mod.rel}:{fn.lineno}")
